@@ -143,6 +143,33 @@ BAD_JSON = {1: '{"a": 1', 2: '{"a": 1} trailing', 3: "{'a': 1}", 4: "not json at
             6: '{"a": [1, 2}'}
 BAD_YAML = {1: "a: [1, 2", 2: "a: b: c", 3: "a: 1\n\tb: 2", 4: "- a\nb: c", 5: "{a: 1, b", 6: 'key: "unterminated'}
 IGNORE = ("warning", "note:")
+# well-formed YAML whose value cannot be constructed (kinds 7..12): fragments that stand where a scalar may stand
+UNLOADABLE_YAML = {
+    7: ["2019-02-30", "2001-13-45", "2019-02-28 25:00:00", "2019-02-28T10:00:00+99:00", "2023-02-29"],
+    8: ["!!int 'many'", "!!float 'abc'", "!!int '12x'", "!!float '1.2.3'"],
+    9: ["!!timestamp 'yesterday'", "!!timestamp 'soon'"],
+    10: ["!!bool 'maybe'", "!!bool 'ja'"],
+    11: ["!!binary 'a'", "!unknown x", "!!python/object:os.system x", "!!omap x", "!!pairs x"],
+    12: ["0x_", "!!int ''", "!!int '0x_'"],
+}
+JSON_DEPTH = 100000      # nesting far beyond what json.loads can build (RecursionError, not a ValueError)
+
+
+def unloadable_yaml(n, rng):
+    frag = rng.choice(UNLOADABLE_YAML[n])
+    key = rng.choice(WORDS)
+    place = rng.randrange(6)
+    if place == 0:
+        return frag
+    if place == 1:
+        return "%s: %s" % (key, frag)
+    if place == 2:
+        return "- %s" % frag
+    if place == 3:
+        return "type: Acquisition\n%s: %s\nsize: 3" % (key, frag)
+    if place == 4:
+        return "%s:\n  - ok\n  - %s" % (key, frag)
+    return "- name: x\n  %s: %s\n- name: y" % (key, frag)
 
 
 def check_catalogue():
@@ -158,6 +185,20 @@ def check_catalogue():
         except yaml.YAMLError:
             continue
         raise Machinery("malformed YAML catalogue entry %d loads" % k)
+    for k, frags in UNLOADABLE_YAML.items():
+        for frag in frags:
+            for text in (frag, "k: " + frag, "- " + frag):
+                try:
+                    yaml.safe_load(text)
+                except Exception:       # noqa  (the library fails; which exception it uses is its business)
+                    continue
+                raise Machinery("unloadable YAML catalogue entry %d %r loads" % (k, text))
+    try:
+        json.loads("[" * JSON_DEPTH + "]" * JSON_DEPTH)
+    except Exception:       # noqa
+        pass
+    else:
+        raise Machinery("deeply nested JSON loads")
 
 
 def node(t, s="", n=0, xs=()):
@@ -283,6 +324,17 @@ def render_doc(fmt, cdoc, rng):
     t = cdoc["t"]
     if t == "empty":
         return []
+    if t == "bad" and cdoc["n"] > 6:
+        if fmt == "json":
+            depth = JSON_DEPTH + rng.randrange(0, 1000)
+            deep = "[" * depth + "]" * depth                                  # balanced, yet never loads
+            return [rng.choice([deep, '{"a": ' + deep + "}", "[1, " + deep + "]"])]
+        text = unloadable_yaml(cdoc["n"], rng)
+        try:
+            yaml.safe_load(text)
+        except Exception:       # noqa
+            return text.split("\n")
+        raise Machinery("unloadable YAML rendering %r loads" % text)
     if t == "bad":
         return (BAD_JSON if fmt == "json" else BAD_YAML)[cdoc["n"]].split("\n")
     v = to_py(cdoc)
@@ -372,7 +424,8 @@ def run_doc(inp, rng, stats):
     except Exception as e:      # noqa
         outcome = exc_name(e)
     stats["doc_" + outcome.split(":")[0]] = stats.get("doc_" + outcome.split(":")[0], 0) + 1
-    return [dict(ev="doc", fmt=fmt, noise=noise, doc=cdoc, outcome=outcome, value=value, text=lines[:8])]
+    return [dict(ev="doc", fmt=fmt, noise=noise, doc=cdoc, outcome=outcome, value=value,
+                 text=[l[:200] for l in lines[:8]])]
 
 
 # ---------------------------------------------------------------------------
@@ -610,7 +663,7 @@ def rand_doc(rng):
     elif r < 0.8:
         d = node("empty")
     else:
-        d = node("bad", n=rng.randrange(1, 7))
+        d = node("bad", n=rng.randrange(1, 13))
     return dict(doc=d, fmt=rng.choice(["json", "yaml"]), noise=rng.choice([0, 0, 1, 2, 3]), concrete=True)
 
 
